@@ -333,6 +333,16 @@ def sec_task_purity(rec, n_deg=3, patches=None):
     c10_tasks.run_section(rec, n_deg=n_deg, patches=patches)
 
 
+def sec_shared_caches(rec, patches=None):
+    """(vii) module-level memoised arrays (functools.lru_cache left active) are shared by every task, model and thread: results must not depend on which calls were made before --
+    missing-wedge masks requested in different orders (executed by C08's cache-history section on a NON-cubic box) and Butterworth weights after other calls (C16's weight-history section)"""
+    from .c08 import sec_history
+    from .c16 import sec_weight_history
+
+    sec_history(rec, patches=patches)
+    sec_weight_history(rec, shape=(3, 2, 4), only_impl="utils", seq_ids=[0], patches=patches)
+
+
 def sec_binning_chunks(rec, patches=None):
     """binning a dask tomogram does not depend on how it is chunked (executed by C15's real-dask section)"""
     from .c15 import sec_blocksum_dask
@@ -342,7 +352,7 @@ def sec_binning_chunks(rec, patches=None):
 
 def sections(tier):
     S = [("multi", "checks.c10", "sec_multi", {}), ("loading", "checks.c10", "sec_loading", {}), ("shared-state-race", "checks.c10", "sec_race", {}),
-         ("binning-chunks", "checks.c10", "sec_binning_chunks", {}), ("task-purity-mock", "checks.c10", "sec_task_purity", {"n_deg": 3}),
+         ("binning-chunks", "checks.c10", "sec_binning_chunks", {}), ("task-purity-mock", "checks.c10", "sec_task_purity", {"n_deg": 3}), ("shared-caches", "checks.c10", "sec_shared_caches", {}),
          ("chunk-order-2x1x1", "checks.c10", "sec_chunk_order", {"chunks": ((30, 30), (60,), (60,)), "n": 3}),
          ("chunk-order-3x1x1", "checks.c10", "sec_chunk_order", {"chunks": ((20, 20, 20), (60,), (60,)), "n": 3})]
     if not quick(tier):
